@@ -10,7 +10,8 @@ LEAN_MODULES = ['VotelibProofs.Props.C09']
 GEN_MODULES = ['Quota']
 REQUIRED = ['getNBest_tie', 'getNBest_fits', 'getNBest_everyone', 'getNBest_length', 'aboveSorted_desc',
             'mem_aboveSorted', 'strictly_above_elected', 'level_all_elected', 'not_above_not_elected_in_tie',
-            'below_never_elected', 'getNBest_strictMono_map', 'plurality_eq', 'quotaSelector_ok']
+            'below_never_elected', 'getNBest_strictMono_map', 'plurality_eq', 'quotaSelector_ok',
+            'sorted_votes_desc_spec', 'sorted_votes_asc_spec', 'sorted_votes_level_sets_agree', 'elected_stays_elected']
 NAME_MODES = ['str', 'int0', 'empty0', 'person']
 REQUIRED_COUNTERS = ['hash_alike_sequence', 'sorted_votes', 'boundary_tie', 'level_fits', 'negative_value', 'all_elected', 'fraction', 'decimal', 'quota_selector']
 RULE = ('1-8 candidates, values from tie-forcing small sets (incl. negatives/zero), Fractions, Decimals and integers up to '
